@@ -36,7 +36,7 @@ Engines == {"sql", "it1", "it2"}
 Env == [L |-> l1, Z |-> <<>>]
 TotalAB == <<Term(A, TRUE), Term(B, FALSE)>>
 
-BuildOps == {Sel(Cmp("eq", A, Lit(1))), Dedup, Sort(TotalAB), Slice(0, 2), Proj({"a"}), Proj({}),
+BuildOps == {Sel(Cmp("eq", A, Lit(1))), Sel(Cmp("eq", A, Lit(5))), Dedup, Sort(TotalAB), Slice(0, 2), Proj({"a"}), Proj({}),
              Calc("d", Fn("add", <<A, B>>))}
 
 NMats(h) == Cardinality({i \in DOMAIN h : h[i].f = "mat"})
